@@ -903,8 +903,11 @@ SPECS_MOL = ['m', 'h', '!s', 'A', '!z', '!b', 'mh', 'a']
 
 
 def corr_writer(ck, rxns):
+    from chython.files.daylight.parser import parser
+    from chython.files.daylight.tokenize import smiles_tokenize
     rng = random.Random(f'{ck.seed}:c15:writer')
     cases, meta = [], []
+    hyp_bad, hyp_total = [], 0
     for x in rxns:
         rxn = x.rxn
         try:
@@ -913,6 +916,17 @@ def corr_writer(ck, rxns):
         except Exception as e:
             ck.count('writer:raises ' + type(e).__name__)
             continue
+        for role in fm:
+            for f in role:
+                hyp_total += 1
+                try:
+                    n_parsed = len(parser(smiles_tokenize(f[0]), False)['atoms'])
+                except Exception:
+                    n_parsed = -1
+                if n_parsed < 0:
+                    ck.count('writer:molecule SMILES refused by the molecule parser (C01-C03; the reader raises there)')
+                if any(ch.isspace() for ch in f[0]) or 0 <= n_parsed < len(f[2]):
+                    hyp_bad.append((f[0], n_parsed, len(f[2])))
         ft = [lst([fmol_term(f) for f in role]) for role in fm]
         cases.append(f'fmt_ok {ft[0]} {ft[1]} {ft[2]} {cstr(exp[0])} {cstr(exp[1])} {cstr(exp[2])} {cstr(exp[3])}')
         meta.append(('fmt', x.desc['idx'], x))
@@ -941,6 +955,12 @@ def corr_writer(ck, rxns):
     ck.oblige('correspondence: ReactionContainer.__format__ (per-role sort, ^1: and f: blocks, !c, !x) == Coq model (RxnSmiles.v)',
               ok and not failing, 'correspondence', log or str([meta[i][:2] for i in failing[:5]]))
     ck.extra['correspondence_cases_writer'] = len(cases)
+    # the molecule-level hypotheses of C15_rxn_roundtrip on the real writer / parser: no white space in a molecule SMILES,
+    # and the parser returns at least as many atoms as the writer listed (fmol_ok is part of fmt_ok above)
+    ck.oblige(f'hypotheses fmol_nows / atoms_cover of C15_rxn_roundtrip hold for the real molecule writer and parser ({hyp_total} molecules)',
+              not hyp_bad, 'correspondence', str(hyp_bad[:5]))
+    if hyp_bad:
+        ck.unchecked('hypotheses of C15_rxn_roundtrip (molecule-level writer / parser)', str(hyp_bad[:10]))
     if cases:
         ck.sample({'model_call': cases[0][:600], 'meta': repr(meta[0][:2])})
     if not ok or failing:
@@ -1242,14 +1262,23 @@ def run(ck):
             return True
         return orig(key, *a, **k)
     ck.counterexample = limited
-    proved = common.standard_proof_steps(ck, translators=[])
+    import time
+    phases = {}
+
+    def timed(name, fn, *a):
+        t0 = time.time()
+        r = fn(*a)
+        phases[name] = round(time.time() - t0, 1)
+        return r
+    proved = timed('proof steps', common.standard_proof_steps, ck, [])
     n = 300 if ck.tier == 'quick' else 1500
-    rxns = gen_reactions(ck, n)
+    rxns = timed('generate', gen_reactions, ck, n)
     ck.extra['reactions'] = len(rxns)
-    tied = corr_compose(ck, rxns)
-    tied = corr_writer(ck, rxns) and tied
-    tied = corr_reader(ck, rxns) and tied
-    tied = corr_tokens(ck, rxns) and tied
-    search(ck, rxns)
+    tied = timed('corr compose', corr_compose, ck, rxns)
+    tied = timed('corr writer', corr_writer, ck, rxns) and tied
+    tied = timed('corr reader', corr_reader, ck, rxns) and tied
+    tied = timed('corr tokens', corr_tokens, ck, rxns) and tied
+    timed('search', search, ck, rxns)
+    ck.extra['phase_seconds'] = phases
     ck.extra['proved'] = proved
     ck.extra['tied'] = tied
